@@ -235,6 +235,21 @@ Definition check_1404 (fs : list field) : verdict :=
 
 (* ------------------------------------------------------------------ 1405 IDL elaboration *)
 
+(* finding 1408: the functions a service inherits from a service of an INCLUDED file are compiled with the included file's tree but
+   with the compiling cache of the main file (thrift/idl.go parse: one structsCache for all funcTreePairs), so a bare struct
+   name of the included file that also names a struct-like of the main file compiled before (same parse target) resolves to the
+   main file's descriptor.  Quirk model: the included files' struct-likes shadowed by the main file's of the same name. *)
+Definition shadow_file (main f : ifile) : ifile :=
+  IFile (fl_path f) (fl_ns f) (fl_includes f) (fl_typedefs f) (fl_enums f) (fl_consts f)
+        (map (fun s => match get_slike main (s_name s) with Some s' => s' | None => s end) (fl_structs f)) (fl_svcs f).
+Definition shadow (p : program) : program :=
+  match p with main :: rest => main :: map (shadow_file main) rest | [] => [] end.
+Definition main_extends_crossfile (p : program) : bool :=
+  match p with
+  | main :: _ => existsb (fun s => match split_last_dot (sv_extends s) with (_ :: _, _) => true | _ => false end) (fl_svcs main)
+  | [] => false
+  end.
+
 Definition field_negative_id (p : program) : bool :=
   existsb (fun f => existsb (fun s => existsb (fun fd => f_id fd <? 0) (s_fields s)) (fl_structs f)) p.
 
@@ -256,6 +271,7 @@ Definition check_1405 (fs : list field) : verdict :=
         let coded := ser_service (elab false false d p o) in
         if list_eqb field_eqb impl coded then
           (if list_eqb field_eqb (ser_service (elab true false d p o)) coded then VKnown 1406 else VKnown 1404)
+        else if main_extends_crossfile p && list_eqb field_eqb impl (ser_service (elab true true d (shadow p) o)) then VKnown 1408
         else VBad 1 (first_diff 0 spec impl)
   | None => VBad 99 []
   end.
@@ -327,3 +343,7 @@ Definition check_1406 (fs : list field) : verdict :=
 (* 1407: the probes of a sweep on which the native trie_get reads index[len] (absorbed by the spare node since fix 0d2d3ac; run
    under debug.SetPanicOnFault); same fields as 1406 *)
 Definition check_1407 (fs : list field) : verdict := check_1406 fs.
+
+(* 1408: witness family of finding 1408 (same fields as 1405): main.thrift and a.thrift both declare struct N,
+   `service Main extends a.Base`, both services have a function taking N *)
+Definition check_1408 (fs : list field) : verdict := check_1405 fs.
